@@ -7,7 +7,8 @@
 (* Modes are 0-based in configurations (as in the Python API); sequences are 1-based.           *)
 EXTENDS Tens, TLC
 
-CONSTANTS MaxOrder, MaxDim, MaxSize
+CONSTANTS MaxOrder, MaxDim, MaxSize,
+          HighOrders      \* orders of the additional all-twos tensors (order 9 and up: a regime of its own for index code)
 
 Shapes == {s \in UNION {[1..n -> 1..MaxDim] : n \in 1..MaxOrder} : Size(s) <= MaxSize}
 
@@ -49,6 +50,26 @@ ValidCfg(c) ==
                                 \* column_modes=None means: the remaining modes in ascending order
                                 /\ (~c.colsgiven => c.cols = SortedSeq(Modes(c.shape) \ SeqRange(c.rows)))
       [] OTHER -> FALSE
+
+\* ---- high-order family: tensors 2 x 2 x ... x 2 of order N in HighOrders (512+ entries).  The full configuration
+\* space is astronomically large there; a structured sample: every unfolding, a few partial forms, and matricizations
+\* whose row sets are prefixes, suffixes, the even modes, single modes, in ascending and descending order.
+HighShapes == {[k \in 1..n |-> 2] : n \in HighOrders}
+Rev(q) == [k \in 1..Len(q) |-> q[Len(q) + 1 - k]]
+HighRowSets(N) == {0..k : k \in {0, 1, (N \div 2) - 1, (N \div 2), N - 2}} \cup {{k \in 0..(N - 1) : k % 2 = 0}}
+                  \cup {{N - 1}, {1, N - 2}, {2}, (N - 3)..(N - 1)}
+HighCfgs(shape) ==
+    LET N == Len(shape) IN
+         {[op |-> "unfold", shape |-> shape, mode |-> m] : m \in Modes(shape)}
+    \cup {[op |-> "vec", shape |-> shape]}
+    \cup {[op |-> "partial_unfold", shape |-> shape, mode |-> m, sb |-> sb, se |-> se, ravel |-> r] :
+             sb \in {0, 2}, se \in {0, 3}, m \in {0, 1, N - 6}, r \in BOOLEAN}
+    \cup {[op |-> "partial_vec", shape |-> shape, sb |-> sb, se |-> se] : sb \in {0, 1, 4}, se \in {0, 2}}
+    \cup UNION {
+             {[op |-> "matricize", shape |-> shape, rows |-> rw, cols |-> SortedSeq(Modes(shape) \ R), colsgiven |-> FALSE] :
+                   rw \in {SortedSeq(R), Rev(SortedSeq(R))}}
+             \cup {[op |-> "matricize", shape |-> shape, rows |-> SortedSeq(R), cols |-> Rev(SortedSeq(Modes(shape) \ R)), colsgiven |-> TRUE]}
+             : R \in HighRowSets(N)}
 
 AllConfigs(dummy) == {c \in UNION {Cfgs(s) : s \in Shapes} : ValidCfg(c)}
 
@@ -111,8 +132,8 @@ CfgOK(c) ==
 \* successor per configuration of that shape; SpecOK is evaluated in every state.
 VARIABLE cfg
 NoCfg == [op |-> "none"]
-Init == cfg \in {[op |-> "shape", shape |-> s] : s \in Shapes}
-Next == cfg.op = "shape" /\ cfg' \in {c \in Cfgs(cfg.shape) : ValidCfg(c)}
+Init == cfg \in {[op |-> "shape", shape |-> s] : s \in Shapes \cup HighShapes}
+Next == cfg.op = "shape" /\ cfg' \in {c \in (IF cfg.shape \in HighShapes THEN HighCfgs(cfg.shape) ELSE Cfgs(cfg.shape)) : ValidCfg(c)}
 Spec == Init /\ [][Next]_cfg
 SpecOK == cfg.op # "shape" => CfgOK(cfg)
 =============================================================================
